@@ -181,6 +181,7 @@ theorem dial_addresses (cfg : Cfg) (st : St) (op : Op) (probe : Nat) (p : Peer) 
     simp only [step] at h
     repeat' split at h
     all_goals simp at h
+  | responseSent peer reqId => simp [step] at h
   | dialFailure peer =>
     cases peer with
     | none => simp [step] at h
@@ -235,6 +236,77 @@ theorem single_flight (cfg : Cfg) (st : St) (op : Op) (probe : Nat) (p : Peer) (
       simp [hasKey, insert]
     · simp at h
 
+/-- the monitor's final state after a run of the model, and the model's final state, are coupled -/
+theorem run_coupled (cfg : Cfg) (ops : List Op) :
+    R cfg (reach cfg ops) (monRun cfg Mon.init (trace cfg St.init ops)).1 :=
+  (monRun_trace_R cfg ops St.init Mon.init (R_init cfg)).2
+
+theorem countPeer_map_req (l : List (Peer × Ongoing)) (p : Peer) (hn : (l.map (·.1)).Nodup) :
+    countPeer (l.map (fun e => (e.1, e.2.req))) p = if hasKey l p then 1 else 0 := by
+  induction l with
+  | nil => simp [countPeer, hasKey]
+  | cons e t ih =>
+    simp only [List.map_cons, List.nodup_cons] at hn
+    have ih' := ih hn.2
+    unfold countPeer hasKey at ih' ⊢
+    by_cases hk : (e.1 == p) = true
+    · have hkp : e.1 = p := by simpa using hk
+      have hnot : t.any (fun e => e.1 == p) = false := by
+        rw [List.any_eq_false]
+        intro x hx hxp
+        apply hn.1
+        have : x.1 = p := by simpa using hxp
+        rw [hkp, ← this]
+        exact List.mem_map_of_mem hx
+      rw [hnot] at ih'
+      simp only [Bool.false_eq_true, ↓reduceIte] at ih'
+      simp only [List.map_cons, List.filter_cons, hk, ↓reduceIte, List.length_cons, List.any_cons,
+        Bool.true_or]
+      omega
+    · simp only [List.map_cons, List.filter_cons, hk, Bool.false_eq_true, ↓reduceIte, List.any_cons,
+        Bool.false_or]
+      exact ih'
+
+/-- **At most one dial-back per peer**, for every op history. `inflightCount` is computed by the
+monitor from the (op, output) trace alone: +1 for every emitted `Dial` to `p`, back to 0 when the
+dial to `p` succeeds or fails, or when the inbound request that STARTED the dial-back fails (a
+failure of any other request of `p` finishes nothing). It never exceeds 1, and it is 1 exactly when
+`ongoing_inbound` has an entry for `p`. -/
+theorem at_most_one_dialback_per_peer (cfg : Cfg) (ops : List Op) (p : Peer) :
+    inflightCount (monRun cfg Mon.init (trace cfg St.init ops)).1 p ≤ 1 ∧
+      (inflightCount (monRun cfg Mon.init (trace cfg St.init ops)).1 p = 1 ↔
+        hasKey (reach cfg ops).ongoing p = true) := by
+  have hR := run_coupled cfg ops
+  unfold inflightCount
+  rw [hR.inflight, countPeer_map_req _ p hR.keys]
+  cases hasKey (reach cfg ops).ongoing p <;> simp
+
+/-- the Spec clause evaluated on the implementation after every op (`ongoingOk`: key set of
+`ongoing_inbound` = peers with exactly one dial-back in flight) accepts the model -/
+theorem ongoing_ok (cfg : Cfg) (ops : List Op) :
+    ongoingOk (monRun cfg Mon.init (trace cfg St.init ops)).1 ((reach cfg ops).ongoing.map (·.1)) = true := by
+  have hR := run_coupled cfg ops
+  have hcount := fun p => at_most_one_dialback_per_peer cfg ops p
+  unfold ongoingOk
+  simp only [Bool.and_eq_true, List.all_eq_true, beq_iff_eq, List.contains_eq_mem, decide_eq_true_eq]
+  constructor
+  · intro p hp
+    apply (hcount p).2.2
+    unfold hasKey
+    rw [List.any_eq_true]
+    simp only [List.mem_map] at hp
+    obtain ⟨e, he, rfl⟩ := hp
+    exact ⟨e, he, by simp⟩
+  · intro e he
+    rw [hR.inflight] at he
+    simp only [List.mem_map] at he
+    obtain ⟨e', he', rfl⟩ := he
+    refine ⟨List.mem_map_of_mem he', ?_⟩
+    apply (hcount e'.1).2.2
+    unfold hasKey
+    rw [List.any_eq_true]
+    exact ⟨e', he', by simp⟩
+
 /-- **Throttling**, stated directly on a step from ANY state: when a dial-back is started, fewer than
 `throttle_clients_global_max` entries — and fewer than `throttle_clients_peer_max` for that peer —
 remain in `throttled_clients` after purging (so at most the maxima including the new one). -/
@@ -285,6 +357,7 @@ theorem throttled_sorted (cfg : Cfg) (ops : List Op) :
       simp only [step]
       repeat' split
       all_goals exact ⟨hs, hn⟩
+    | responseSent peer reqId => exact ⟨hs, hn⟩
     | dialFailure peer =>
       cases peer with
       | none => exact ⟨hs, hn⟩
@@ -435,7 +508,7 @@ theorem windowed_append (cfg : Cfg) (log : List (Peer × Nat)) (peer : Peer) (no
 
 theorem judge_dial_fst (cfg : Cfg) (m : Mon) (probe : Nat) (peer : Peer) (addrs : List Maddr) :
     (judge cfg m (.dial probe peer addrs)).1 =
-      { m with inflight := (peer, probe) :: m.inflight, log := m.log ++ [(peer, m.now)] } := by
+      { m with inflight := (peer, m.curReq) :: m.inflight, log := m.log ++ [(peer, m.now)] } := by
   unfold judge
   simp only
   repeat' split
@@ -538,6 +611,8 @@ end C50
 #print axioms C50.p2p_in_middle_buggy_counterexample
 #print axioms C50.monitor_accepts_model
 #print axioms C50.dial_addresses
+#print axioms C50.at_most_one_dialback_per_peer
+#print axioms C50.ongoing_ok
 #print axioms C50.ongoing_unique
 #print axioms C50.single_flight
 #print axioms C50.throttle_at_dial
